@@ -63,6 +63,20 @@ ClosedS(P, e) == \/ e.op = "const"
 LitVal(P, e) == Eval(Ctx(P), e, [i \in DOMAIN P.fluents |-> InitOf(P, i)], <<>>)
 NegLiteral(P, e) == ClosedS(P, e) /\ LET v == LitVal(P, e) IN ~IsU(v) /\ v.n < 0
 
+\* ---------- the input feature the known defect depends on (named in violation signatures) ----------
+RECURSIVE SubExprs(_)
+SubExprs(e) == {e} \cup UNION {SubExprs(e.args[i]) : i \in DOMAIN e.args}
+RECURSIVE FluentFree(_, _)
+FluentFree(P, e) == IF e.op = "fluent" THEN IsStatic(P, FlIdx(P, e.name)) ELSE \A i \in DOMAIN e.args : FluentFree(P, e.args[i])
+\* the divisors of e that mention no (non-static) fluent, are not literals for the Simplifier, and
+\* take a negative value somewhere on the grid
+NegDivisors(P, e, Grid) ==
+   {d \in {t.args[2] : t \in {u \in SubExprs(e) : u.op = "div"}} :
+       /\ FluentFree(P, d) /\ ~ClosedS(P, d)
+       /\ \E k \in DOMAIN Grid.pts : LET v == Eval(Ctx(P), d, Grid.pts[k].s, Grid.pts[k].env) IN ~IsU(v) /\ v.n < 0}
+DivFeature(P, e, Grid) == IF NegDivisors(P, e, Grid) # {} THEN "nonliteral-divisor-can-be-negative"
+                          ELSE "no-negative-nonliteral-divisor"
+
 \* ---------- the analysis ----------
 Lin(p, n) == [lin |-> TRUE, pos |-> p, neg |-> n]
 NotLin    == [lin |-> FALSE, pos |-> {}, neg |-> {}]
